@@ -8,6 +8,9 @@ case : `mxw <slots = max_connections> <maxReq> <ops>` / `h2w <maxReq> <ops>`    
 token: `<res>;q<Requests.Cur>;a<host>:<cluster> request_active;b<host>:<cluster> connection_active;n<o|c per connection>;`
        `l<connections with a request in flight, sorted>`
 ops  : mxw `I<k>` / `IF<k>` CheckAndInit on slot k (dial ok / refused), `N<k>` NewStream on slot k; h2w `N` / `NF`;
+       mxw `W<k>` NewStream on slot k with the connection closed by MOSN between the creation of the stream and the
+       listener registration, `V<k>` NewStream with the upstream's go-away handled between the state test and the
+       creation of the stream (yield hook of poolMultiplex.NewStream; model: the same labels between the same statements);
        both `R<s>` response, `L<s>` local reset, `X<s>` (mxw: garbage ⇒ connection lost; h2w: RST_STREAM), `G<c>` go-away,
        `CR<c>` / `CL<c>` connection closed by the upstream / by MOSN, `E+` / `E-` breaker slot held elsewhere.
 
@@ -28,6 +31,8 @@ open MosnVerif.Model.PoolMxWin
 inductive XOp
   | i (k : Nat) (ok : Bool) | n (k : Nat) (ok : Bool) | r (s : Nat) | l (s : Nat) | x (s : Nat)
   | g (c : Nat) | cl (c : Nat) | eInc | eDec
+  | nw (k : Nat)   -- NewStream on slot k, the connection closed between the creation of the stream and the listener
+  | nv (k : Nat)   -- NewStream on slot k, go-away handled between the state test and the creation of the stream
   deriving Repr
 
 def numAfter (s : String) (n : Nat) : Option Nat := (s.drop n).toString.toNat?
@@ -38,6 +43,8 @@ def parseOp (h2 : Bool) (t : String) : Option XOp :=
   else if t.startsWith "IF" then (numAfter t 2).map (.i · false)
   else if t.startsWith "I" then (numAfter t 1).map (.i · true)
   else if t.startsWith "N" then (numAfter t 1).map (.n · true)
+  else if !h2 && t.startsWith "W" then (numAfter t 1).map .nw
+  else if !h2 && t.startsWith "V" then (numAfter t 1).map .nv
   else if t.startsWith "R" then (numAfter t 1).map .r
   else if t.startsWith "L" then (numAfter t 1).map .l
   else if t.startsWith "X" then (numAfter t 1).map .x
@@ -60,6 +67,37 @@ def render (res : String) (s : State) : String :=
 def resTok : Res → String
   | .none => "-" | .ok c => s!"ok{c}" | .overflow => "ovf" | .connFail => "cf"
 
+/-- run task `k` until its next statement is `stop` (or it has ended) -/
+def runUntil : Nat → State → Nat → Stmt → State
+  | 0, s, _, _ => s
+  | n + 1, s, k, stop =>
+    match s.tasks[k]? with
+    | some t => match t.rest with
+      | [] => s
+      | st :: _ => if st = stop then s else runUntil n (stepTask s k) k stop
+    | none => s
+
+/-- run task `k` to its end -/
+def runTask : Nat → State → Nat → State
+  | 0, s, _ => s
+  | n + 1, s, k =>
+    match s.tasks[k]? with
+    | some t => if t.rest.isEmpty then s else runTask n (stepTask s k) k
+    | none => s
+
+/-- a NewStream on slot `k` with a connection event landing when the next statement of NewStream is `stop` -/
+def raced (s : State) (sc : List Nat) (k : Nat) (stop : Stmt) (ev : Nat → Label) : State × List Nat × String :=
+  let s0 := { s with bk := { s.bk with lastRes := .none } }
+  let kt := s0.tasks.length
+  let s1 := runUntil fuel (step s0 (.newStream k true)) kt stop
+  let s2 := match s1.tasks[kt]? with
+    | some t => match t.rest, t.c with
+      | _ :: _, some c => let s' := step s1 (ev c); runTask fuel s' (s'.tasks.length - 1)
+      | _, _ => s1
+    | none => s1
+  let s3 := drain fuel s2
+  (s3, (match s3.bk.lastRes with | .ok c => sc ++ [c] | _ => sc), resTok s3.bk.lastRes)
+
 /-- one operation on the model, run to quiescence; `sc` = connection of every stream so far -/
 def apply (h2 : Bool) (s : State) (sc : List Nat) : XOp → State × List Nat × String
   | .i k ok =>
@@ -79,6 +117,8 @@ def apply (h2 : Bool) (s : State) (sc : List Nat) : XOp → State × List Nat ×
   | .cl c => (drain fuel (step s (.netClose c)), sc, "-")
   | .eInc => (step s .extInc, sc, "-")
   | .eDec => (step s .extDec, sc, "-")
+  | .nw k => raced s sc k .listen .netClose
+  | .nv k => raced s sc k .chkBreaker .goAway
 
 def modelToks (h2 : Bool) : State → List Nat → List XOp → List String
   | _, _, [] => []
@@ -139,6 +179,18 @@ def specAlong (h2 : Bool) (maxReq : Nat) : Nat → List Nat → Obs → List XOp
           (match okConn res with
            | some c => !full && o.isOpen c && !ga.contains c
            | none => (res == "ovf" && full) || res == "cf", ext, ga)
+        | .nw _ =>
+          -- the connection was closed while NewStream ran: a stream handed out would be on a closed connection
+          (match okConn res with
+           | some c => !full && o.isOpen c && !ga.contains c
+           | none => (res == "ovf" && full) || res == "cf", ext, ga)
+        | .nv _ =>
+          -- the lease was decided before the go-away was observed: the stream may be handed out on that connection
+          -- (which then counts as told to go away), never on a closed one
+          (match okConn res with
+           | some c => !full && o.isOpen c && !ga.contains c
+           | none => (res == "ovf" && full) || res == "cf",
+           ext, match okConn res with | some c => c :: ga | none => ga)
         | .i _ _ => (res == "t" || res == "f", ext, ga)
         | .g c => (res == "-", ext, c :: ga)
         | .eInc => (res == "-", ext + 1, ga)
